@@ -36,7 +36,9 @@ ASSUMPTIONS = [
 ]
 HAND_LEMMAS = []
 NOT_COVERED = ["dict2pid_add_word is NOT under contract: decided only by the bounded native differential run dict2pid_add_enum (random histories over small phone alphabets, compared with dict2pid_build from scratch; silence / filler phones inside pronunciations excluded)", "use of the new word in grammars / alignment", "dict_read_s3file", "unbounded word / phone-string lengths"]
+LEVEL = "model_checking"   # no unbounded contract proof in this property: CBMC bounded runs with unwinding assertions + a native differential run
 CLAIM = dict(
+    level="model_checking",
     text="dict_add_word is checked by CBMC on the real function over every dictionary of <= 3 existing words with symbolic alt/base links, for plain, alternate and empty spellings, present/absent base word and duplicate: success gives the next id, the given pronunciation and the head-of-chain link, every existing entry is unchanged (only the base word's alt link may change), and a rejected addition changes nothing. decoder_add_word's phone parser is checked on every phone string of <= 3 characters: every phone-id write stays inside its buffer, unknown phones, empty words and empty pronunciations are rejected. Bounded (labelled so). The cross-word triphone tables that make an added word usable by the search (dict2pid_add_word) are compared, for 1 600 additions in random dictionary histories over small phone alphabets of the real en-us model, with a dict2pid built from scratch over the same words (bounded stand-in, not proof).",
     note="bounded harnesses (CBMC unwinding with unwinding assertions), hash table as a map stub; dict2pid_add_word by a bounded native differential run against dict2pid_build (not proof); search re-initialisation not covered; three genuine defects found here were fixed in /repo (known_findings.txt)",
     technique="CBMC bounded model checking of the real functions with unwinding assertions over harness-built dictionaries (bounded stand-in; a DFCC contract version ran out of memory); counterexamples replayed natively under ASan; bounded native differential run for dict2pid_add_word")
